@@ -3,8 +3,14 @@
    Models: Gen/LinePP.v (hand model of _generate_with_line_buffer, tied by correspondence),
    Generated/Gen_LinePP.v (T2 translation of the two built-in processors and of the
    newline pattern, regenerated from /repo on every run). *)
-From Verif Require Import LinePP LinePPThm LinePPInst LinePPInstThm.
+From Verif Require Import LinePP LinePPThm LinePPInst LinePPInstThm Gen_Pin_linebuf.
 Open Scope N_scope.
+
+(* (0) Tie of the hand model Gen/LinePP.v to the source: the shape pin (tools/translators/shape_pin.py) regenerates
+   Gen_Pin_linebuf.v from /repo on every run; `pin_linebuf_ok` is only defined when the normalised AST of
+   CodeGenerator._generate_with_line_buffer and _filter_and_write_line is the one the model was written for. *)
+Example C15_linebuf_shape_pinned : pin_linebuf_ok = true.
+Proof. reflexivity. Qed.
 
 (* (1) Writing through ANY pipeline of line processors (arbitrary state machine `step`,
    user processors included) equals applying the pipeline line by line to the complete
